@@ -1735,18 +1735,16 @@ func (m *repoManager) hideBranch(uuid dvid.UUID, branch string) error {
 	}
 	m.repoMutex.Lock()
 	r.Lock()
-	del_set := make(map[dvid.VersionID]struct{})
+	del_set := make(map[dvid.VersionID]dvid.UUID)
 	for v, node := range r.dag.nodes {
 		if node.branch == branch {
-			del_set[v] = struct{}{}
-			del_uuid := m.versionToUUID[v]
-			delete(m.versionToUUID, v)
-			delete(m.uuidToVersion, del_uuid)
+			del_set[v] = node.uuid
 			delete(r.dag.nodes, v)
-			delete(m.repos, del_uuid)
+			delete(m.repos, node.uuid)
 		}
 	}
 	for _, node := range r.dag.nodes {
+		node.Lock()
 		var children []dvid.VersionID
 		for _, cv := range node.children {
 			if _, found := del_set[cv]; !found {
@@ -1756,9 +1754,18 @@ func (m *repoManager) hideBranch(uuid dvid.UUID, branch string) error {
 		if len(children) < len(node.children) {
 			node.children = children
 		}
+		node.Unlock()
 	}
 	r.Unlock()
 	m.repoMutex.Unlock()
+
+	// The id maps are guarded by idMutex, which is never taken while holding the repo locks.
+	m.idMutex.Lock()
+	for v, del_uuid := range del_set {
+		delete(m.versionToUUID, v)
+		delete(m.uuidToVersion, del_uuid)
+	}
+	m.idMutex.Unlock()
 	return r.save()
 }
 
